@@ -2,7 +2,7 @@
 From Coq Require Import List NArith ZArith Lia Bool Arith String.
 From Coq Require Import ZifyN ZifyNat ZifyBool.
 From Snow Require Import Lib.Wire Lib.AmpPathUtil Model.B64Url Model.AmpPath Model.CacheURL Model.Rendezvous.
-From Snow Require Import Proofs.AmpPathProofs Proofs.CacheURLProofs.
+From Snow Require Import Proofs.AmpPathProofs Proofs.CacheURLProofs Proofs.RendezvousPathProofs.
 Import ListNotations.
 Open Scope N_scope.
 Notation length := List.length.
@@ -162,7 +162,7 @@ Section Amp.
   (* the request line carries the poll: path = <dir of broker path>amp/client/0<pad>/<base64url> *)
   Lemma amp_path_nocache : forall b front cb data q,
     amp_request to_unicode to_ascii sha256 h34 b None front cb data = Some q ->
-    q_path q = resolve_rel (b_epath b) (AMP_PREFIX ++ encode_path cb data).
+    q_path q = resolve_path (b_epath b) (AMP_PREFIX ++ encode_path cb data).
   Proof.
     intros b front cb data q H. unfold amp_request in H. inversion H; subst.
     unfold with_front. destruct (beq front []); reflexivity.
@@ -226,6 +226,49 @@ Section Broker.
     (h_status post = 200 /\ ampr = {| h_status := 200; h_body := armor (h_body post) |}) \/
     (h_status post = 500 /\ ampr = {| h_status := 500; h_body := [] |}).
   Proof. intros. apply amp_equals_post; auto. apply path_roundtrip. assumption. Qed.
+
+  (* every case of the two endpoints for one poll, without side conditions: the AMP endpoint never looks at the size
+     or the first byte; the POST endpoint refuses bodies over the limit and sends '{'-leading bodies to the legacy shim *)
+  Definition is_legacy_b (body : bytes) : bool := match body with 123 :: _ => true | _ => false end.
+
+  Lemma not_legacy_match : forall A (body : bytes) (x y : A), is_legacy_b body = false ->
+    match body with 123 :: _ => x | _ => y end = y.
+  Proof.
+    intros A body x y H. destruct body as [|c body']; [reflexivity|]. destruct c as [|pc]; [reflexivity|].
+    do 7 (destruct pc as [pc|pc|]; try reflexivity). discriminate.
+  Qed.
+
+  Lemma legacy_match : forall A (body : bytes) (x y : A), is_legacy_b body = true ->
+    match body with 123 :: _ => x | _ => y end = x.
+  Proof.
+    intros A body x y H. destruct body as [|c body']; [discriminate|]. destruct c as [|pc]; [discriminate|].
+    do 7 (destruct pc as [pc|pc|]; try discriminate). reflexivity.
+  Qed.
+
+  Lemma amp_post_cases : forall p body,
+    decode_path p = POk body ->
+    let post := post_handler client_offers legacy_post body in
+    let ampr := amp_handler client_offers armor decode_error_response (AMP_ROUTE ++ p) in
+    ampr = match client_offers body with
+           | Some r => {| h_status := 200; h_body := armor r |}
+           | None => {| h_status := 500; h_body := [] |}
+           end /\
+    (BROKER_READ_LIMIT < N.of_nat (length body) -> post = {| h_status := 400; h_body := [] |}) /\
+    (N.of_nat (length body) <= BROKER_READ_LIMIT -> is_legacy_b body = true -> post = legacy_post body) /\
+    (N.of_nat (length body) <= BROKER_READ_LIMIT -> is_legacy_b body = false ->
+       post = match client_offers body with
+              | Some r => {| h_status := 200; h_body := r |}
+              | None => {| h_status := 500; h_body := [] |}
+              end).
+  Proof.
+    intros p body Hd post ampr. subst post ampr. unfold amp_handler, post_handler. rewrite strip_prefix_app, Hd.
+    split; [destruct (client_offers body); reflexivity|]. split; [|split].
+    - intros H. apply N.ltb_lt in H. rewrite H. reflexivity.
+    - intros H L. replace (BROKER_READ_LIMIT <? N.of_nat (length body)) with false by (symmetry; apply N.ltb_ge; exact H).
+      apply legacy_match. exact L.
+    - intros H L. replace (BROKER_READ_LIMIT <? N.of_nat (length body)) with false by (symmetry; apply N.ltb_ge; exact H).
+      apply not_legacy_match. exact L.
+  Qed.
 
   (* an undecodable path is answered with the armored error response, status 200 *)
   Lemma amp_undecodable : forall p e r,
@@ -298,18 +341,65 @@ Section EndToEnd.
     reflexivity.
   Qed.
 
-  (* broker base path "/b1/…/bk/" (k >= 0): the AMP endpoint URL's path *)
+  Lemma normal_nodot : forall s, normal_seg s -> nodot s.
+  Proof. intros s [_ [_ [H1 H2]]]. split; [unfold is_dot|unfold is_dotdot]; apply beq_neq; assumption. Qed.
+
+  Lemma alphabet_nodot : forall s, Forall in_alphabet s -> nodot s.
+  Proof.
+    intros s F. rewrite Forall_forall in F. split.
+    - unfold is_dot. apply beq_neq. intros E. subst. apply dot_not_in_alphabet. apply F. left. reflexivity.
+    - unfold is_dotdot. apply beq_neq. intros E. subst. apply dot_not_in_alphabet. apply F. left. reflexivity.
+  Qed.
+
+  Lemma alphabet_noslash : forall s, Forall in_alphabet s -> ~ In SLASHC s.
+  Proof. intros s F H. rewrite Forall_forall in F. apply (slash_not_in_alphabet (F _ H)). Qed.
+
+  (* the relative reference of the AMP rendezvous, segment by segment (the last one is empty for an empty poll) *)
+  Lemma split_amp_ref : forall cb data, split_on SLASHC (AMP_PREFIX ++ encode_path cb data) = amp_segs cb data.
+  Proof.
+    intros. unfold amp_segs.
+    change (AMP_PREFIX ++ encode_path cb data)
+      with (bs "amp"%string ++ SLASHC :: (bs "client"%string ++ SLASHC :: (enc_seg1 cb ++ SLASHC :: u_encode data))).
+    rewrite !split_on_app.
+    rewrite (split_on_nosep SLASHC (bs "amp"%string)) by (vm_compute; intuition discriminate).
+    rewrite (split_on_nosep SLASHC (bs "client"%string)) by (vm_compute; intuition discriminate).
+    rewrite (split_on_nosep SLASHC (enc_seg1 cb)) by (apply enc_seg1_normal).
+    rewrite (split_on_nosep SLASHC (u_encode data)) by (apply alphabet_noslash, u_encode_alphabet).
+    reflexivity.
+  Qed.
+
+  Lemma amp_segs_nodot : forall cb data, Forall nodot (amp_segs cb data).
+  Proof.
+    intros. unfold amp_segs.
+    apply Forall_cons; [split; reflexivity|]. apply Forall_cons; [split; reflexivity|].
+    apply Forall_cons; [apply normal_nodot, enc_seg1_normal|]. apply Forall_cons; [apply alphabet_nodot, u_encode_alphabet|apply Forall_nil].
+  Qed.
+
+  (* broker base path "/b1/…/bk/" (k >= 0) without dot segments: the AMP endpoint URL's path *)
   Lemma amp_pub_path : forall b bsegs cb data,
+    Forall normal_seg bsegs ->
     b_epath b = abs_path bsegs ++ [SLASHC] ->
     p_epath (amp_pub_url b cb data) = abs_path (bsegs ++ amp_segs cb data).
   Proof.
-    intros b bsegs cb data Hb. unfold amp_pub_url. cbn [p_epath]. unfold resolve_rel. rewrite Hb.
-    rewrite upto_last_snoc.
-    assert (E : (abs_path bsegs ++ [SLASHC]) ++ AMP_PREFIX ++ encode_path cb data = abs_path (bsegs ++ amp_segs cb data)).
-    { unfold abs_path. rewrite flat_map_app. rewrite <- app_assoc. f_equal.
-      unfold amp_segs, enc_seg1, encode_path, encode_path_with_pad. cbn [flat_map]. rewrite app_nil_r.
-      reflexivity. }
-    rewrite E. unfold lead_slash. destruct bsegs; reflexivity.
+    intros b bsegs cb data Fb Hb. unfold amp_pub_url. cbn [p_epath].
+    change (AMP_PREFIX ++ encode_path cb data) with (97 :: (tl AMP_PREFIX ++ encode_path cb data)).
+    rewrite resolve_path_nodots.
+    - change (97 :: (tl AMP_PREFIX ++ encode_path cb data)) with (AMP_PREFIX ++ encode_path cb data).
+      unfold resolve_rel. rewrite Hb. rewrite upto_last_snoc.
+      assert (E : (abs_path bsegs ++ [SLASHC]) ++ AMP_PREFIX ++ encode_path cb data = abs_path (bsegs ++ amp_segs cb data)).
+      { unfold abs_path. rewrite flat_map_app. rewrite <- app_assoc. f_equal.
+        unfold amp_segs, enc_seg1, encode_path, encode_path_with_pad. cbn [flat_map]. rewrite app_nil_r.
+        reflexivity. }
+      rewrite E. unfold lead_slash. destruct bsegs; reflexivity.
+    - unfold SLASHC. discriminate.
+    - change (97 :: (tl AMP_PREFIX ++ encode_path cb data)) with (AMP_PREFIX ++ encode_path cb data).
+      rewrite Hb, upto_last_snoc. rewrite <- app_assoc. cbn [app].
+      change (abs_path bsegs ++ SLASHC :: AMP_PREFIX ++ encode_path cb data)
+        with ([] ++ abs_path bsegs ++ SLASHC :: (AMP_PREFIX ++ encode_path cb data)).
+      rewrite split_abs_normal by assumption. rewrite split_amp_ref.
+      apply Forall_app. split; [apply Forall_cons; [apply nodot_nil|apply Forall_nil]|].
+      apply Forall_app. split; [|apply amp_segs_nodot].
+      eapply Forall_impl; [|exact Fb]. apply normal_nodot.
   Qed.
 
   (* Through an AMP cache: the request path is
@@ -332,7 +422,7 @@ Section EndToEnd.
     apply cache_url_some in E. destruct E as [_ [_ [_ [_ [Hh [_ [_ [_ Er]]]]]]]].
     assert (Fp : Forall normal_seg (bsegs ++ amp_segs cb data)).
     { apply Forall_app. split; [assumption|apply amp_segs_normal; assumption]. }
-    pose proof (amp_pub_path b bsegs cb data Hb) as Hp.
+    pose proof (amp_pub_path b bsegs cb data Fb Hb) as Hp.
     destruct (cache_path_shape (amp_pub_url b cb data) cu csegs (bsegs ++ amp_segs cb data) trailing Fc Fp Hc Hp Hh Hd1 Hd2)
       as [S1 S2].
     assert (QP : q_path q = lead_slash (r_rawpath r)).
@@ -354,4 +444,89 @@ Section EndToEnd.
       rewrite <- abs_amp_segs. unfold abs_path. rewrite <- flat_map_app. rewrite <- !app_assoc. reflexivity.
     - apply path_roundtrip_encoder. assumption.
   Qed.
+  (* ---- the same for ANY broker path and ANY rooted (or empty) cache path: dot segments, empty segments, no trailing slash ---- *)
+
+  Lemma filter_nonempty_amp_segs : forall cb data, data <> [] -> filter nonempty (amp_segs cb data) = amp_segs cb data.
+  Proof.
+    intros cb data H. pose proof (amp_segs_normal cb data H) as F. induction F as [|s l Hs F IH]; [reflexivity|].
+    cbn [filter]. rewrite nonempty_normal by assumption. rewrite IH. reflexivity.
+  Qed.
+
+  Lemma amp_request_cache_path : forall b cu front cb data q,
+    (c_epath cu = [] \/ exists cp, c_epath cu = SLASHC :: cp) ->
+    b_hostname b <> [DOTC] -> b_hostname b <> [DOTC; DOTC] ->
+    amp_request to_unicode to_ascii sha256 h34 b (Some cu) front cb data = Some q ->
+    exists pre0,
+      p_epath (amp_pub_url b cb data) = pre0 ++ SLASHC :: AMP_PREFIX ++ encode_path cb data /\
+      q_path q = abs_path (clean_segs true (split_on SLASHC (c_epath cu)) [] ++ middle (amp_pub_url b cb data) ++
+                           filter nonempty (split_on SLASHC pre0) ++ filter nonempty (amp_segs cb data)).
+  Proof.
+    intros b cu front cb data q Hc Hd1 Hd2 Hq. unfold amp_request in Hq.
+    destruct (cache_url to_unicode to_ascii sha256 h34 (amp_pub_url b cb data) cu (bs "c"%string)) as [r|] eqn:E; [|discriminate].
+    apply cache_url_some in E. destruct E as [_ [_ [_ [_ [Hh [_ [_ [_ Er]]]]]]]].
+    assert (QP : q_path q = lead_slash (r_rawpath r)).
+    { inversion Hq. unfold with_front. destruct (beq front []); reflexivity. }
+    pose proof (resolve_path_dotfree (b_epath b) (AMP_PREFIX ++ encode_path cb data)) as DF.
+    assert (Fdd : Forall (fun s => is_dotdot s = false) (split_on SLASHC (p_epath (amp_pub_url b cb data)))).
+    { cbn [amp_pub_url p_epath]. eapply Forall_impl; [|exact DF]. intros a [_ H]. exact H. }
+    pose proof (cache_path_general (amp_pub_url b cb data) cu Hc Hh Hd1 Hd2 Fdd) as G.
+    rewrite nodot_keep_nonempty in G by exact DF.
+    destruct (resolve_path_keeps_ref (b_epath b) 97 (tl AMP_PREFIX ++ encode_path cb data)) as [pre0 Hp].
+    { unfold SLASHC. discriminate. }
+    { change (97 :: (tl AMP_PREFIX ++ encode_path cb data)) with (AMP_PREFIX ++ encode_path cb data).
+      rewrite split_amp_ref. apply amp_segs_nodot. }
+    change (97 :: (tl AMP_PREFIX ++ encode_path cb data)) with (AMP_PREFIX ++ encode_path cb data) in Hp.
+    exists pre0. split; [exact Hp|].
+    rewrite QP. subst r. cbn [r_rawpath]. rewrite G. cbn [amp_pub_url p_epath]. rewrite Hp.
+    rewrite split_on_app, filter_app, split_amp_ref. reflexivity.
+  Qed.
+
+  (* no input loses the poll: whatever the broker URL's path and the cache URL's path, the request path ends in the
+     broker's AMP route followed by the encoded poll; of the broker's own path only empty segments disappear
+     (ResolveReference has already resolved its dot segments), of the cache's path what path.Clean removes *)
+  Lemma amp_cache_end_to_end_general : forall b cu front cb data q,
+    wf_bytes data -> data <> [] ->
+    (c_epath cu = [] \/ exists cp, c_epath cu = SLASHC :: cp) ->
+    b_hostname b <> [DOTC] -> b_hostname b <> [DOTC; DOTC] ->
+    amp_request to_unicode to_ascii sha256 h34 b (Some cu) front cb data = Some q ->
+    q_path q = abs_path (clean_segs true (split_on SLASHC (c_epath cu)) [] ++ middle (amp_pub_url b cb data) ++
+                         filter nonempty (split_on SLASHC (p_epath (amp_pub_url b cb data)))) /\
+    Forall nodot (split_on SLASHC (p_epath (amp_pub_url b cb data))) /\
+    (exists pre, q_path q = pre ++ AMP_ROUTE ++ encode_path cb data) /\
+    decode_path (encode_path cb data) = POk data.
+  Proof.
+    intros b cu front cb data q W Hne Hc Hd1 Hd2 Hq.
+    destruct (amp_request_cache_path b cu front cb data q Hc Hd1 Hd2 Hq) as [pre0 [Hp P]].
+    split; [|split; [apply resolve_path_dotfree|split]].
+    - rewrite P, Hp. rewrite split_on_app, filter_app, split_amp_ref. reflexivity.
+    - rewrite P. rewrite filter_nonempty_amp_segs by assumption.
+      exists (abs_path (clean_segs true (split_on SLASHC (c_epath cu)) [] ++ middle (amp_pub_url b cb data) ++ filter nonempty (split_on SLASHC pre0))).
+      rewrite <- abs_amp_segs. unfold abs_path. rewrite <- flat_map_app. rewrite <- !app_assoc. reflexivity.
+    - apply path_roundtrip_encoder. assumption.
+  Qed.
+
+  (* the one input whose encoded path does not survive an AMP cache: the empty poll. Its path ends in "/", the empty last
+     segment is removed by path.Join inside CacheURL, and what is left after the broker's route has no slash at all:
+     the broker answers "missing data". (By design - see cache_test.go; a client poll is never empty.) *)
+  Lemma amp_cache_empty_poll : forall b cu front cb q,
+    (c_epath cu = [] \/ exists cp, c_epath cu = SLASHC :: cp) ->
+    b_hostname b <> [DOTC] -> b_hostname b <> [DOTC; DOTC] ->
+    amp_request to_unicode to_ascii sha256 h34 b (Some cu) front cb [] = Some q ->
+    (exists pre, q_path q = pre ++ AMP_ROUTE ++ enc_seg1 cb) /\ decode_path (enc_seg1 cb) = PErr MissingData /\
+    decode_path (encode_path cb []) = POk [].
+  Proof.
+    intros b cu front cb q Hc Hd1 Hd2 Hq.
+    destruct (amp_request_cache_path b cu front cb [] q Hc Hd1 Hd2 Hq) as [pre0 [Hp P]].
+    split; [|split].
+    - rewrite P.
+      assert (F : filter nonempty (amp_segs cb []) = [bs "amp"%string; bs "client"%string; enc_seg1 cb]).
+      { unfold amp_segs. cbn [filter u_encode]. change (nonempty (bs "amp"%string)) with true. change (nonempty (bs "client"%string)) with true.
+        change (nonempty []) with false. unfold enc_seg1. change (nonempty (ZERO_CH :: u_encode cb)) with true. reflexivity. }
+      rewrite F.
+      exists (abs_path (clean_segs true (split_on SLASHC (c_epath cu)) [] ++ middle (amp_pub_url b cb []) ++ filter nonempty (split_on SLASHC pre0))).
+      unfold abs_path. rewrite !flat_map_app. cbn [flat_map]. rewrite app_nil_r. rewrite <- !app_assoc. reflexivity.
+    - apply path_outcomes. exists (u_encode cb). split; [reflexivity|]. apply alphabet_noslash, u_encode_alphabet.
+    - apply path_roundtrip_encoder. apply Forall_nil.
+  Qed.
 End EndToEnd.
+
